@@ -310,6 +310,8 @@ class StmtMixin:
         if isinstance(it, StrOp) and it.op == "slice" and isinstance(it.args[0], (UList, PList)):
             e, d = self.sym_elem(it.args[0], site) if isinstance(it.args[0], UList) else (Unknown("elem"), "list")
             return e, f"{d}[{it.args[1]}]"
+        if isinstance(it, PList) and len(it.items) == 1 and isinstance(it.items[0], Rep) and len(it.items[0].items) == 1 and not it.sym_elem_of:
+            return it.items[0].items[0], it.items[0].over
         if isinstance(it, PList):
             # a list containing Rep items: iterate over "an element"
             return Unknown(f"elem(list@{site})"), f"list@{site}"
